@@ -455,7 +455,7 @@ def module_of(a2l_tree, k=0):
     return a2l_tree["project"]["module"][k]
 
 
-def render2(g0, g1, first="m"):
+def render2(g0, g1, first="m", header_between=False):
     """one file with two MODULEs (m, m2); name spaces are per module, so both may use the same names"""
     def body(g):
         ls = render(g).split("\n")
@@ -466,7 +466,8 @@ def render2(g0, g1, first="m"):
     l1, b1, e1 = body(g1)
     second = ['  /begin MODULE m2 ""'] + l1[b1 + 1:e1 + 1]
     l0[b0] = f'  /begin MODULE {first} ""'
-    return "\n".join(l0[:e0 + 1] + second + l0[e0 + 1:])
+    mid = ['  /begin HEADER "a header behind the first module"', '  /end HEADER'] if header_between else []
+    return "\n".join(l0[:e0 + 1] + mid + second + l0[e0 + 1:])
 
 
 def module_index(a2l_tree, name):
